@@ -206,6 +206,10 @@ CORPUS = [
     (4, Node("ctrl", cw=[3], cv=[False], e=Node("ctrl", cw=[0], cv=[True], e=Node("sum", a=_L("RZ", [0], [1]), b=_L("SWAP", [], [1, 2]))))),
     (4, Node("ctrl", cw=[2], cv=[False], e=Node("ctrl", cw=[3], cv=[True], e=Node("sprod", c=Fr(1, 2), e=_L("CNOT", [], [0, 1]))))),
     (4, Node("ctrl", cw=[1, 3], cv=[True, False], e=Node("ctrl", cw=[0], cv=[False], e=Node("adj", e=Node("prod", a=_L("S", [], [2]), b=_L("RY", [1], [2])))))),
+    # adjoint of a change-of-basis composition whose compute operator is NOT self-inverse and does not commute with the target
+    (1, Node("adj", e=Node("cob", u=_L("RX", [0], [0]), v=_L("S", [], [0])))),
+    (2, Node("adj", e=Node("cob", u=_L("RY", [0], [0]), v=_L("CNOT", [], [0, 1])))),
+    (3, Node("ctrl", cw=[2], cv=[True], e=Node("adj", e=Node("cob", u=Node("prod", a=_L("RX", [0], [1]), b=_L("RY", [1], [0])), v=_L("CRZ", [1], [0, 1]))))),
 ]
 for ci in range(ncase):
     n = rng.choice([1, 2, 3, 3, 4])
@@ -361,5 +365,101 @@ for name, mk in _map_cases():
                     break
         except Exception as e:
             it["numeric_fail"] = {"what": f"raised {type(e).__name__}: {str(e)[:150]}"}
+# ---- integer powers (z = 0, 1, 2, 3, -1) of Pauli words and non-Pauli bases (numeric): the power itself and everything built on
+# top of it (simplify, sparse matrix, cached Pauli representation, Sum / Prod / SProd / Exp) must equal numpy's matrix_power of the base
+def _pow_cases():
+    yield "X0", lambda: qp.X(0)
+    yield "Y1", lambda: qp.Y(1)
+    yield "Z2", lambda: qp.Z(2)
+    yield "adjoint(Y0)", lambda: qp.adjoint(qp.Y(0))
+    yield "X0@Y1", lambda: qp.X(0) @ qp.Y(1)
+    yield "sprod(.5, Z1)", lambda: qp.s_prod(0.5, qp.Z(1))
+    yield "sum(X0, .5*Z1)", lambda: qp.sum(qp.X(0), qp.s_prod(0.5, qp.Z(1)))
+    yield "Hadamard0", lambda: qp.Hadamard(0)
+    yield "S1", lambda: qp.S(1)
+    yield "RX(.7)@2", lambda: qp.RX(0.7, wires=2)
+    yield "CNOT[0,2]", lambda: qp.CNOT(wires=[0, 2])
+
+
+_WO = [0, 1, 2]
+_NP = {w: np.asarray(qp.matrix(o, wire_order=_WO)) for w, o in (("Z2", qp.Z(2)), ("Y0", qp.Y(0)), ("X1", qp.X(1)))}
+for name, mk in _pow_cases():
+    for z in (0, 1, 2, 3, -1):
+        it = {"expr": f"pow({name}, {z}) and consumers", "n": 3, "status": "regression", "detail": "numeric regression block (not an obligation)", "kinds": ["pow-consumers"]}
+        items.append(it)
+        try:
+            B = np.asarray(qp.matrix(mk(), wire_order=_WO))
+            R = np.linalg.matrix_power(B if z >= 0 else np.linalg.inv(B), abs(z))       # independent reference
+            w, V = np.linalg.eig(0.5 * (R + _NP["Z2"]))
+            RE = (V * np.exp(0.3j * w)) @ np.linalg.inv(V)                               # exp(0.3j * 0.5 (R + Z2)) by eigendecomposition
+            for lazy in (True, False):
+                pw = lambda: qp.pow(mk(), z, lazy=lazy)
+                views = {"matrix": (lambda: qp.matrix(pw(), wire_order=_WO), R),
+                         "simplify": (lambda: qp.matrix(qp.simplify(pw()), wire_order=_WO), R),
+                         "sparse_matrix": (lambda: pw().sparse_matrix(wire_order=_WO).toarray(), R),
+                         "pauli_rep": (lambda: (lambda q: q.pauli_rep.to_mat(wire_order=_WO) if q.pauli_rep is not None else R)(pw()), R),
+                         "sum_on_top": (lambda: qp.matrix(qp.sum(pw(), qp.Z(2)), wire_order=_WO), R + _NP["Z2"]),
+                         "simplify(sum_on_top)": (lambda: qp.matrix(qp.simplify(qp.sum(pw(), qp.Z(2))), wire_order=_WO), R + _NP["Z2"]),
+                         "prod_on_top": (lambda: qp.matrix(qp.prod(pw(), qp.Y(0)), wire_order=_WO), R @ _NP["Y0"]),
+                         "simplify(prod_on_top)": (lambda: qp.matrix(qp.simplify(qp.prod(qp.X(1), pw())), wire_order=_WO), _NP["X1"] @ R),
+                         "sparse(prod_on_top)": (lambda: qp.prod(pw(), qp.Y(0)).sparse_matrix(wire_order=_WO).toarray(), R @ _NP["Y0"]),
+                         "sprod_on_top": (lambda: qp.matrix(qp.s_prod(2.5, pw()), wire_order=_WO), 2.5 * R),
+                         "simplify(sprod_on_top)": (lambda: qp.matrix(qp.simplify(qp.s_prod(2.5, pw())), wire_order=_WO), 2.5 * R),
+                         "exp_on_top": (lambda: qp.matrix(qp.exp(qp.s_prod(0.5, qp.sum(pw(), qp.Z(2))), 0.3j), wire_order=_WO), RE)}
+                for vname, (f, want) in views.items():
+                    if z < 0 and "sparse" in vname:
+                        continue        # sparse matrices of negative powers are not offered (scipy's sparse power needs z >= 0)
+                    try:
+                        G = np.asarray(f())
+                    except (qp.operation.MatrixUndefinedError, qp.operation.SparseMatrixUndefinedError, NotImplementedError):
+                        continue
+                    if G.shape != want.shape or not np.allclose(G, want, atol=1e-9):
+                        it["numeric_fail"] = {"what": f"pow then {vname}", "operator": repr(pw())[:120], "z": z, "lazy": lazy,
+                                              "max_abs_diff": float(np.abs(G - want).max()) if G.shape == want.shape else None}
+                        break
+                if it.get("numeric_fail"):
+                    break
+        except Exception as e:
+            it["numeric_fail"] = {"what": f"raised {type(e).__name__}: {str(e)[:150]}"}
+# ---- adjoint / inverse of change-of-basis compositions V.T.U, incl. an explicit uncompute V != U^dagger and template operands (numeric):
+# every way of taking the adjoint must give (V T U)^dagger computed from the operands' own matrices
+def _cob_cases():
+    yield "cob(RX(.7)@0, S0)", lambda: (qp.RX(0.7, 0), qp.S(0), None)
+    yield "cob(RY(.4)@0, CNOT[0,1], RZ(.9)@1)", lambda: (qp.RY(0.4, 0), qp.CNOT([0, 1]), qp.RZ(0.9, 1))
+    yield "cob(T1, RX(.3)@1, SX1)", lambda: (qp.T(1), qp.RX(0.3, 1), qp.SX(1))
+    yield "cob(QFT[0,1], PhaseAdder(1,[0,1]))", lambda: (qp.QFT([0, 1]), qp.PhaseAdder(1, x_wires=[0, 1]), None)
+    yield "cob(Rot(.1,.2,.3)@1, CRX(.5)[1,0])", lambda: (qp.Rot(0.1, 0.2, 0.3, wires=1), qp.CRX(0.5, wires=[1, 0]), None)
+    yield "cob(Hadamard0, T0)", lambda: (qp.Hadamard(0), qp.T(0), None)
+
+
+for name, mk in _cob_cases():
+    it = {"expr": f"adjoint of {name}", "n": 3, "status": "regression", "detail": "numeric regression block (not an obligation)", "kinds": ["cob-adjoint"]}
+    items.append(it)
+    try:
+        wo2 = [0, 1]
+        U, T, V = [None if o is None else np.asarray(qp.matrix(o, wire_order=wo2)) for o in mk()]
+        C = (U.conj().T if V is None else V) @ T @ U                                   # independent reference of the composition
+        Cd = C.conj().T
+        P1 = np.kron(np.diag([0.0, 1.0]), np.eye(4))                                    # control wire 2 (first in the order [2,0,1]) in |1>
+        cob = lambda: qp.change_op_basis(*[o for o in mk() if o is not None])
+        views = {"composition": (lambda: qp.matrix(cob(), wire_order=wo2), C),
+                 "adjoint": (lambda: qp.matrix(qp.adjoint(cob()), wire_order=wo2), Cd),
+                 "adjoint(lazy=False)": (lambda: qp.matrix(qp.adjoint(cob(), lazy=False), wire_order=wo2), Cd),
+                 "simplify(adjoint)": (lambda: qp.matrix(qp.simplify(qp.adjoint(cob())), wire_order=wo2), Cd),
+                 "adjoint(adjoint)": (lambda: qp.matrix(qp.adjoint(qp.adjoint(cob(), lazy=False), lazy=False), wire_order=wo2), C),
+                 "ctrl(adjoint)": (lambda: qp.matrix(qp.ctrl(qp.adjoint(cob()), control=2), wire_order=[2, 0, 1]), P1 @ np.kron(np.eye(2), Cd) + (np.eye(8) - P1)),
+                 "prod(adjoint, C)": (lambda: qp.matrix(qp.prod(qp.adjoint(cob()), cob()), wire_order=wo2), Cd @ C)}
+        for vname, (f, want) in views.items():
+            try:
+                G = np.asarray(f())
+            except (qp.operation.MatrixUndefinedError, NotImplementedError):
+                it.setdefault("skipped", []).append(vname)
+                continue
+            if G.shape != want.shape or not np.allclose(G, want, atol=1e-9):
+                it["numeric_fail"] = {"what": f"change_op_basis then {vname}", "operator": repr(cob())[:160],
+                                      "max_abs_diff": float(np.abs(G - want).max()) if G.shape == want.shape else None}
+                break
+    except Exception as e:
+        it["numeric_fail"] = {"what": f"raised {type(e).__name__}: {str(e)[:150]}"}
 json.dump(oblig, open(req["outdir"] + "/obligations.json", "w"))
 print(json.dumps({"items": items}))
